@@ -49,6 +49,9 @@ pub enum Strategy {
 pub struct TableDef {
     pub name: String,
     pub partitioner: Option<String>,
+    /// Some(base table): this is a materialized view (listed in system_schema.views, not
+    /// in system_schema.tables).
+    pub view_of: Option<String>,
 }
 
 #[derive(Debug, Clone)]
@@ -1270,18 +1273,29 @@ fn system_table(
             .flat_map(|k| {
                 k.tables
                     .iter()
+                    .filter(|t| t.view_of.is_none())
                     .map(move |t| vec![text_cell(&k.name), text_cell(&t.name)])
             })
             .collect();
         (cols, rows)
     } else if l.contains("from system_schema.views") {
+        let rows = w
+            .cluster
+            .keyspaces
+            .iter()
+            .flat_map(|k| {
+                k.tables
+                    .iter()
+                    .filter_map(move |t| t.view_of.as_ref().map(|base| vec![text_cell(&k.name), text_cell(&t.name), text_cell(base)]))
+            })
+            .collect();
         (
             vec![
                 col("system_schema", "views", "keyspace_name", CType::Text),
                 col("system_schema", "views", "view_name", CType::Text),
                 col("system_schema", "views", "base_table_name", CType::Text),
             ],
-            vec![],
+            rows,
         )
     } else if l.contains("from system_schema.scylla_tables") {
         if w.cluster.nodes[me].nr_shards == 0 {
